@@ -15,8 +15,8 @@ from pqv.props.c11 import build_native, native_run, qi
 
 THEOREMS = ["Pq.C04.binomialCoeff_eq_choose", "Pq.C04.binomUpdate_exact", "Pq.C04.runJob_eq_sum",
             "Pq.C04.permanent_one_thread_sum", "Pq.C04.permanent_threads_independent", "Pq.C04.wrap32_of_small",
-            "Pq.C04.int32_overflow_witness"]
-FILES = ["PqVerif/Model/Kernel.lean", "PqVerif/Lemmas/GrayLaws.lean", "PqVerif/Lemmas/PermLaws.lean", "PqVerif/Props/C04.lean"]
+            "Pq.C04.int32_overflow_witness", "Pq.C04.permanent_eq_permSpec", "Pq.C04.permanent_none_of_ne"]
+FILES = ["PqVerif/Model/Kernel.lean", "PqVerif/Lemmas/GrayLaws.lean", "PqVerif/Lemmas/PermLaws.lean", "PqVerif/Lemmas/Glynn.lean", "PqVerif/Lemmas/PermSpec.lean", "PqVerif/Props/C04.lean"]
 
 
 # ------------------------------------------------------------------ exact definitions
